@@ -209,6 +209,19 @@ def main():
             bad("Shape:%s" % op, dict(case=c, got=got, want=want))
         elif not close(got["n"], want["n"]):
             bad("Numbers:%s" % op, dict(case=c, got=got, want=want))
+        # ... and the same result whichever nutrients the run counts (labels and numbers are not a matter of the flags)
+        if op not in ("Add", "Sub", "MinElem", "DivFood", "MulFood") or rep["transitions"] % 7 == 0:
+            for inc_f, inc_p in ((False, False), (False, True)):
+                Food.conversions.set_nutrition_requirements(2100, 47, 51, inc_f, inc_p, 1e7)
+                try:
+                    with np.errstate(all="ignore"):
+                        g2 = project(apply_op(Food, op, mk(Food, c["x"]), mk(Food, c["y"])))
+                except BaseException as ex:  # noqa
+                    g2 = "Error:" + repr(ex)[:100]
+                rep["flag_variants"] = rep.get("flag_variants", 0) + 1
+                if isinstance(g2, str) or g2["labels"] != want["labels"] or g2["sh"] != want["sh"] or not close(g2["n"], want["n"]):
+                    bad("SameWhicheverNutrientsCount:%s" % op, dict(case=c, flags=[inc_f, inc_p], got=g2, want=want))
+            Food.conversions.set_nutrition_requirements(2100, 47, 51, True, True, 1e7)
     # the unary predicates near their numeric boundaries: a single value and the one-month series of it must agree
     for inc_f in (False, True):
         for inc_p in (False, True):
